@@ -825,6 +825,7 @@ META = (META[0] + " " + META_EXTRA, META[1])
 META = (META[0] + " DELEG also for basic_bitset's single-bit members (primitive of their own name); BITPRIM (bit primitives evaluated over the two-point bit domain); IT4i.", META[1])
 META = (META[0] + ' AGG (all / any / none over word classes zero / full / mixed).', META[1])
 META = (META[0] + " RETARG (helper type argument equals the conversion's return type).", META[1])
+META = (META[0] + ' SIBNAME; COPYMOD (value-returning operators read the object they copy).', META[1])
 
 
 def run(chk, tier):
